@@ -454,6 +454,12 @@ C01_http(H) ==
             /\ \A k \in DOMAIN H.out.runs[r].hops :
                   H.out.runs[r].hops[k].addr # "" => \E i \in DOMAIN H.del : H.del[i].run = w /\ PktOf(H, H.del[i]).src = H.out.runs[r].hops[k].addr
 
+\* C06 at request level: every wire run of the request emits one probe per TTL, in increasing order, at least the configured delay apart
+C06_req(H) ==
+    \A w \in WireRuns(H) :
+        LET s == SentOfRun(H, w) IN
+        \A j \in 1..(Len(s) - 1) : s[j + 1].ttl = s[j].ttl + 1 /\ s[j + 1].t - s[j].t >= H.par.delay_us
+
 \* C10 at request level (RunTraceroute / the HTTP handler): whatever ended the request - success, failure, cancellation while probes
 \* were being paced - no goroutine it started is still alive once it has returned, and every handle it opened was closed exactly once
 C10_req(H) ==
